@@ -12,15 +12,15 @@ using real::Files;
 using Theo::OpCode;
 
 struct Case {
-  Files files; std::string main;
+  Files files; std::string main; std::vector<std::string> history;  // history: only when replaying a recorded violation
   std::string json() const { return real::case_json(files, main); }
   uint64_t hash() const { uint64_t h = vf::fnv(main); for (auto &p : files) { h = vf::fnv(p.first, h); h = vf::fnv(p.second, h); } return h; }
   std::string key() const { std::string k; for (auto &p : files) k += p.first + "=" + p.second + "|"; k += "main=" + main; for (auto &c : k) if (c == '\n') c = ' '; return k; }
-  static Case from(const vf::J &j) { return {j["files"].strmap(), j["main"].s}; }
+  static Case from(const vf::J &j) { Case c{j["files"].strmap(), j["main"].s, {}}; if (j.has("history")) for (auto &h : j["history"].a) c.history.push_back(h.s); return c; }
 };
 typedef std::function<void(const Case &)> CB;
 typedef drv::Level<Case> Level;
-static Case single(const std::string &src) { return {{{"main", src}}, "main"}; }
+static Case single(const std::string &src) { return {{{"main", src}}, "main", {}}; }
 
 typedef std::pair<std::string, int> Loc;
 
@@ -146,7 +146,9 @@ static void explore(const Case &c, const std::string &prop, vf::Stats &st, size_
   while (head < frontier.size() && !failed) {
     int ni = frontier[head++];
     for (size_t ai = 0; ai < A.size() && !failed; ai++) {
-      const Act &a = A[ai]; Node &src = *nodes[ni]; Model m = src.m; bool defined = true; bool mret = false, site_stop = false; long long msteps = 0;
+      const Act &a = A[ai]; Node &src = *nodes[ni]; Model m = src.m;
+      // replaying a recorded violation: no search, exactly the recorded API calls in their order
+      if (!c.history.empty() && ((size_t)src.depth >= c.history.size() || a.str() != c.history[src.depth])) continue; bool defined = true; bool mret = false, site_stop = false; long long msteps = 0;
       // model first: is the action defined (execute must be able to stop)?
       switch (a.t) {
         case Act::SETBP: case Act::ENVBP: mret = avail.count(a.loc) > 0; if (mret) { if (a.val) m.E.insert(a.loc); else m.E.erase(a.loc); } break;
